@@ -91,20 +91,22 @@ def c12_2(ctx, ss):
         return
     kname = lp.iter.id
     defs = [d for d in flow.defs if d.name == kname and d.kind == "assign"]
-    texts = sorted(txt(d.value) for d in defs)
-    want = sorted([canon("[k for k in self.decays if k not in stable_particles]"), "list(self.decays.keys())"])
-    alt_ok = all(t in (canon("[k for k in self.decays if k not in stable_particles]"), "list(self.decays.keys())", "list(self.decays)",
-                       canon("[k for k in self.decays.keys() if k not in stable_particles]")) for t in texts) and texts
+    from .common import guarded_values
+    gv = guarded_values(ff, flow, defs)
+    texts = sorted(txt(v) for _, v in gv)
+    FILT = (canon("[k for k in self.decays if k not in stable_particles]"), canon("[k for k in self.decays.keys() if k not in stable_particles]"))
+    ALLK = ("list(self.decays.keys())", "list(self.decays)", canon("[k for k in self.decays]"))
+    alt_ok = bool(texts) and all(t in FILT + ALLK for t in texts)
     if alt_ok:
         ctx.holds("C12.2", k + " :: all-keys", where(ff, lp), "keys = every decaying particle not declared stable; the loop ranges over all of them", len(defs) + 1)
     else:
         ctx.violation("C12.2", k + " :: all-keys", where(ff, lp), f"keys are {texts}")
-    # the branch with the filter is taken when a stable set is given
-    for d in defs:
-        if " if " in txt(d.value):
-            conds = [(txt(e), pol) for kind, e, pol in guards.path_conditions(ff.node, d.stmt) if kind == "if"]
-            if conds != [("stable_particles", True)]:
-                ctx.violation("C12.2", k + " :: stable-branch", where(ff, d.stmt), f"the stable-set filter applies under {conds}")
+    # the filtered alternative is the one taken when a stable set is given (an empty filter is the same as no filter)
+    for conds, v in gv:
+        if txt(v) in FILT and conds not in ([("stable_particles", True)], []):
+            ctx.violation("C12.2", k + " :: stable-branch", where(ff, lp), f"the stable-set filter applies under {conds}")
+        if txt(v) in ALLK and conds not in ([("stable_particles", False)],):
+            ctx.violation("C12.2", k + " :: stable-branch", where(ff, lp), f"all particles are substituted under {conds}: a given stable set is ignored")
     # while condition: recomputed from the same keys
     cond = wl.test
     cd = [d for d in flow.defs if isinstance(cond, ast.Name) and d.name == cond.id and d.kind == "assign"]
@@ -165,7 +167,7 @@ def c12_3(ctx, ss):
                                           "the product starts from the top-level branching fraction" if oki else f"the product starts from `{txt(init[0].value) if init else None}`")
     a = add[0]
     rl = enclosing(ff, a, (ast.For,))
-    oka = txt(a.target) == FS and txt(a.value) == f"self.decays[{kv}].daughters" and rl and txt(flow.expand(rl[0].iter, keep=KEEP)) == f"range({FS}[{kv}])"
+    oka = txt(a.target) == FS and txt(flow.expand(a.value, keep=KEEP)) == f"self.decays[{kv}].daughters" and rl and txt(flow.expand(rl[0].iter, keep=KEEP)) == f"range({FS}[{kv}])"
     (ctx.holds if oka else ctx.violation)("C12.3", k + " :: add", where(ff, a),
                                           "the daughters of k are added multiplicity(k) times" if oka else "the daughters of k are not added exactly multiplicity(k) times")
     s = sub[0]
